@@ -1,10 +1,12 @@
 package rules
 
 import (
+	"fmt"
 	"go/ast"
 	"go/constant"
 	"go/token"
 	"go/types"
+	"sort"
 	"strings"
 
 	"golang.org/x/tools/go/packages"
@@ -457,7 +459,7 @@ func flagAccess(ci ssa.CallInstruction) (method string, nameArg ssa.Value, ok bo
 		}
 		return "", nil, false
 	}
-	cal := com.StaticCallee()
+	cal := core.Callee(com)
 	if cal == nil || len(com.Args) < 2 {
 		return "", nil, false
 	}
@@ -518,7 +520,7 @@ func flagNames(p *core.Program, v ssa.Value, depth int) ([]string, bool) {
 			for _, b := range g.Blocks {
 				for _, in := range b.Instrs {
 					ci, ok := in.(ssa.CallInstruction)
-					if !ok || ci.Common().StaticCallee() != fn || idx >= len(ci.Common().Args) {
+					if !ok || core.Callee(ci.Common()) != fn || idx >= len(ci.Common().Args) {
 						continue
 					}
 					s, ok := flagNames(p, ci.Common().Args[idx], depth-1)
@@ -593,7 +595,7 @@ func collectFlagReads(p *core.Program) []flagRead {
 				}
 				if u, ok := recv.(*ssa.UnOp); ok && u.Op == token.MUL {
 					if ia, ok := u.X.(*ssa.IndexAddr); ok {
-						if lc, ok := ia.X.(*ssa.Call); ok && isCtxMethod(lc.Call.StaticCallee(), "Lineage") {
+						if lc, ok := ia.X.(*ssa.Call); ok && isCtxMethod(core.Callee(&lc.Call), "Lineage") {
 							fr.OnIndex = true
 							fr.Index = ia.Index
 						}
@@ -724,4 +726,144 @@ func sortedStrings(s []string) []string {
 		}
 	}
 	return out
+}
+
+// ruleNoFlagSkipped (C15-R13, shared): a method of the options that walks the context lineage looks at every one of
+// its flags on every level. In the loop, each block that asks IsSet(name) dominates every back edge of the loop —
+// unless it is nested in the set-branch of another such question, which then is held to the same rule. A continue or
+// break placed in the branch of one flag makes the loop skip the questions that follow it: given together with that
+// flag, the other flags of the level silently lose their effect.
+func ruleNoFlagSkipped(c *core.Ctx, rule string) {
+	n := 0
+	for _, fn := range c.P.Funcs {
+		if core.FnPkgPath(fn) != optionsPkg || len(fn.Blocks) == 0 {
+			continue
+		}
+		fname := core.FuncName(fn)
+		for _, h := range fn.Blocks {
+			var latches []*ssa.BasicBlock
+			for _, p := range h.Preds {
+				if h.Dominates(p) {
+					latches = append(latches, p)
+				}
+			}
+			if len(latches) == 0 {
+				continue
+			}
+			body := map[*ssa.BasicBlock]bool{h: true}
+			work := append([]*ssa.BasicBlock(nil), latches...)
+			for len(work) > 0 {
+				b := work[len(work)-1]
+				work = work[:len(work)-1]
+				if body[b] {
+					continue
+				}
+				body[b] = true
+				work = append(work, b.Preds...)
+			}
+			// the questions asked in the loop: block → flag names
+			type question struct {
+				b     *ssa.BasicBlock
+				names []string
+				pos   string
+			}
+			var qs []question
+			for b := range body {
+				if b == h || inInnerLoop(b, h, body) {
+					continue
+				}
+				for _, in := range b.Instrs {
+					ci, ok := in.(ssa.CallInstruction)
+					if !ok {
+						continue
+					}
+					m, nameArg, ok := flagAccess(ci)
+					if !ok || m != "IsSet" {
+						continue
+					}
+					names, _ := flagNames(c.P, nameArg, 0)
+					qs = append(qs, question{b, names, c.P.Pos(in.Pos())})
+				}
+			}
+			if len(qs) < 2 {
+				continue
+			}
+			sort.Slice(qs, func(i, j int) bool { return qs[i].b.Index < qs[j].b.Index })
+			n++
+			disc := fmt.Sprintf("loop@%s", c.P.Pos(lastPos(h)))
+			c.Universe(rule+" loops that ask for flags", fname+" ("+c.P.Pos(lastPos(h))+")")
+			asks := map[*ssa.BasicBlock]bool{}
+			for _, q := range qs {
+				asks[q.b] = true
+			}
+			domAll := func(b *ssa.BasicBlock) bool {
+				for _, l := range latches {
+					if !b.Dominates(l) {
+						return false
+					}
+				}
+				return true
+			}
+			var bad []string
+			for _, q := range qs {
+				if domAll(q.b) {
+					continue
+				}
+				// nested in the set-branch of another question?
+				nested := false
+				for d := q.b.Idom(); d != nil && body[d] && d != h; d = d.Idom() {
+					if asks[d] && len(d.Succs) == 2 && d.Succs[0].Dominates(q.b) {
+						nested = true
+						break
+					}
+				}
+				if !nested {
+					bad = append(bad, fmt.Sprintf("%s: the question IsSet(%s) is not asked on every round of the loop over the context lineage: a continue, break or return taken for another flag of the same level skips it, so that flag loses its effect whenever the two are given together", q.pos, strings.Join(q.names, "/")))
+				}
+			}
+			if len(bad) == 0 {
+				c.Discharge(rule, fname, disc, c.P.Pos(lastPos(h)), fmt.Sprintf("%d flags are asked for on every round", len(qs)))
+			}
+			for _, m := range uniq(bad) {
+				c.Violate(rule, fname, disc, c.P.Pos(lastPos(h)), m, nil)
+			}
+		}
+	}
+	if n == 0 {
+		c.Note(rule + ": no loop in package options asks for more than one flag (vacuous)")
+	}
+}
+
+// inInnerLoop: block b of the loop headed by h (body) also lies in a loop nested inside it.
+func inInnerLoop(b, h *ssa.BasicBlock, body map[*ssa.BasicBlock]bool) bool {
+	for h2 := range body {
+		if h2 == h {
+			continue
+		}
+		// h2 heads a loop if one of its predecessors is dominated by it
+		var latches []*ssa.BasicBlock
+		for _, p := range h2.Preds {
+			if h2.Dominates(p) {
+				latches = append(latches, p)
+			}
+		}
+		if len(latches) == 0 {
+			continue
+		}
+		inner := map[*ssa.BasicBlock]bool{h2: true}
+		work := append([]*ssa.BasicBlock(nil), latches...)
+		for len(work) > 0 {
+			x := work[len(work)-1]
+			work = work[:len(work)-1]
+			if inner[x] {
+				continue
+			}
+			inner[x] = true
+			work = append(work, x.Preds...)
+		}
+		if inner[b] {
+			return true
+		}
+	}
+	return false
 }
